@@ -3,49 +3,87 @@ reports per-transition counters (outcome kinds, probe reads, ...).
 
 replay(hist) -> (canon, violations[(sig, msg)], enabled_ops, counts{key: n})
 A state in which a violation was observed is not expanded; BFS order makes the first counterexample minimal.
+
+Unlike common.pmap (one forked pool per call) the worker pool is forked ONCE, before the frontier and the
+seen-set grow, and reused for every level and root: on this machine every fresh fork of a large parent costs
+each child hundreds of copy-on-write faults, which with 16 workers x dozens of levels dominated the run.
 """
-import gc
+import multiprocessing
+import sys
+import traceback
 
 from . import common
 
+_POOL = None
+_POOL_SIZE = 0
 
-def _level(chunk, replay):
-    # forked workers inherit the parent's heap (frontier + seen set): keep the cyclic GC away from it
-    gc.freeze()
-    res = common.Result()
-    out = []
-    for hist in chunk:
-        canon, viols, ops, counts = replay(hist)
-        res.count("transitions")
-        for k, n in counts.items():
-            res.count(k, n)
-        for sig, msg in viols:
-            res.violation(sig, {"history": hist}, msg)
-        out.append((hist, canon, bool(viols), ops))
-    res.notes["outs"] = out
-    return res
+
+def _pool(workers):
+    global _POOL, _POOL_SIZE
+    if _POOL is None or _POOL_SIZE != workers:
+        shutdown()
+        _POOL = multiprocessing.get_context("fork").Pool(workers)
+        _POOL_SIZE = workers
+    return _POOL
+
+
+def shutdown():
+    global _POOL
+    if _POOL is not None:
+        _POOL.terminate()
+        _POOL.join()
+        _POOL = None
+
+
+def _level(args):
+    chunk, replay = args
+    try:
+        res = common.Result()
+        out = []
+        for hist in chunk:
+            canon, viols, ops, counts = replay(hist)
+            res.count("transitions")
+            for k, n in counts.items():
+                res.count(k, n)
+            for sig, msg in viols:
+                res.violation(sig, {"history": hist}, msg)
+            out.append((canon, bool(viols), ops))
+        return ("ok", res, out)
+    except BaseException:
+        return ("err", traceback.format_exc(), None)
 
 
 def explore(replay, max_depth, root, workers=None, sample_every=9973):
+    workers = workers or common.NWORKERS
     total = common.Result()
     seen = set()
     frontier = [list(root)]
     depth = 0
     while frontier:
-        parts = common.pmap(_level, frontier, (replay,), workers=workers)
-        outs = parts.notes.pop("outs", [])
-        total.merge(parts)
+        if workers <= 1 or len(frontier) < 4 * workers:
+            parts = [frontier]
+            results = [_level((frontier, replay))]
+        else:
+            size = max(1, min(4000, (len(frontier) + workers * 6 - 1) // (workers * 6)))
+            parts = [frontier[i:i + size] for i in range(0, len(frontier), size)]
+            results = _pool(workers).map(_level, [(p, replay) for p in parts], chunksize=1)
         nxt = []
-        for hist, canon, bad, ops in outs:
-            if canon in seen:
-                continue
-            seen.add(canon)
-            if len(seen) % sample_every == 1:
-                total.sample({"history": hist})
-            if bad or depth >= max_depth:
-                continue
-            for op in ops:
-                nxt.append(hist + [op])
+        for part, (kind, res, out) in zip(parts, results):
+            if kind == "err":
+                sys.stderr.write("HARNESS-ERROR in worker:\n%s\n" % res)
+                shutdown()
+                raise SystemExit(2)
+            total.merge(res)
+            for hist, (canon, bad, ops) in zip(part, out):
+                if canon in seen:
+                    continue
+                seen.add(canon)
+                if len(seen) % sample_every == 1:
+                    total.sample({"history": hist})
+                if bad or depth >= max_depth:
+                    continue
+                for op in ops:
+                    nxt.append(hist + [op])
         total.notes["max_depth"] = depth
         frontier = nxt
         depth += 1
